@@ -79,7 +79,8 @@ def released(v):
 
 
 def is_cow_clone(v):
-    return vget(v, "alloc") == 1 and vget(v, "init") == 1 and released(v) == 1 and vget(v, "own") == 0 and vget(v, "uclone") >= 1 and vget(v, "inc") == 0
+    # the old block's owner is given up by running a handle's destructor (drops == 1), not by a bare decrement
+    return vget(v, "alloc") == 1 and vget(v, "init") == 1 and released(v) == 1 and vget(v, "drops") == 1 and vget(v, "own") == 0 and vget(v, "uclone") >= 1 and vget(v, "inc") == 0
 
 
 def is_unwrapped(v):
@@ -127,7 +128,7 @@ def check_class(cls, vecs):
     elif cls == "COW":
         for v in vs:
             if not (is_zero(v) and vget(v, "uclone") == 0 or is_cow_clone(v)):
-                return "copy-on-write must either keep the allocation untouched without cloning, or clone once into one fresh block and release one owner of the old one; a path has %s" % balance.vec_str(v)
+                return "copy-on-write must either keep the allocation untouched without cloning, or clone once into one fresh block and release one owner of the old one through the handle's destructor; a path has %s" % balance.vec_str(v)
         if not any(is_cow_clone(v) for v in vs) or not any(is_zero(v) for v in vs):
             return "expected both the in-place path and the clone path"
     elif cls == "UNWRAP":
@@ -143,9 +144,9 @@ def check_class(cls, vecs):
     elif cls == "UNWRAP-OR-CLONE":
         for v in vs:
             a = is_unwrapped(v) and vget(v, "uclone") == 0
-            b = vget(v, "uclone") >= 1 and released(v) == 1 and vget(v, "own") == -1 and vget(v, "inc") == 0 and vget(v, "alloc") == 0
+            b = vget(v, "uclone") >= 1 and released(v) == 1 and vget(v, "drops") == 1 and vget(v, "own") == -1 and vget(v, "inc") == 0 and vget(v, "alloc") == 0
             if not (a or b):
-                return "must either move the value out of the solely owned block, or clone it and release one owner; a path has %s" % balance.vec_str(v)
+                return "must either move the value out of the solely owned block, or clone it and release one owner by running the handle's destructor (which destroys the value if that owner was the last); a path has %s" % balance.vec_str(v)
         if not any(is_unwrapped(v) for v in vs) or not any(vget(v, "uclone") for v in vs):
             return "expected both the unwrap path and the clone path"
     return None
@@ -352,6 +353,10 @@ def run(ctx, rep):
     n = balance.rule_cbzero(ctx, rep)
     rep.floor("R-CBZERO", 5, "five public callback borrowers (with_raw_offset_arc, ThinArc::with_arc, with_arc_mut, OffsetArc::with_arc, ArcBorrow::with_arc)")
     rule_fwd(ctx, rep)
+    balance.rule_count_addr(ctx, rep)
+    rep.floor("R-COUNT-ADDR", 1, "one instance per run")
+    balance.rule_use_after_release(ctx, rep)
+    rep.floor("R-USE-AFTER-RELEASE", 1, "the one decrementing body")
     rep.floor("R-BAL", 150, "API bodies")
     for tag, F, E in ctx.each():
         for u in sorted(E.unmodelled):
